@@ -32,18 +32,22 @@ void h_sjp_parse(void) {
             s_nb = (s_n + 7) / 8;
             if (s_n <= 256 && inputlen >= 2 + s_nb) {
                 int pad_ok = 1;
+                /* m = number of set bits in the ceil(n/8)-byte bitmap; bits at positions >= n must be zero */
                 for (i = 0; i < 32; i++) if (i < s_nb) {
                     unsigned b;
-                    for (b = 0; b < 8; b++) if ((input[2 + i] >> b) & 1) { if (8 * i + b < s_n) s_pop++; else pad_ok = 0; }
+                    for (b = 0; b < 8; b++) s_pop += (input[2 + i] >> b) & 1;
                 }
+                if (s_n % 8 != 0 && (input[2 + s_nb - 1] >> (s_n % 8)) != 0) pad_ok = 0;
                 s_ok = pad_ok && inputlen == 2 + s_nb + 32 * (1 + s_pop);
             }
         }
         __CPROVER_assert(ret == s_ok, "C11 parse: accept set equals the canonical-encoding specification");
         if (ret) {
             __CPROVER_assert(proof.n_inputs == s_n && proof.n_inputs <= SECP256K1_SURJECTIONPROOF_MAX_N_INPUTS, "C11 parse: accepted object has n_inputs = b0 + 256 b1 <= 256");
+#ifdef EL_CONTENT   /* thorough tier: byte-for-byte content of the 8 KiB fields (ghost index k) */
             if (k < s_nb) __CPROVER_assert(proof.used_inputs[k] == input[2 + k], "C11 parse: every bitmap byte copied");
             if (k < 32 * (1 + s_pop)) __CPROVER_assert(proof.data[k] == input[2 + s_nb + k], "C11 parse: every signature byte copied");
+#endif
             if (s_n % 8 != 0) __CPROVER_assert((input[2 + s_nb - 1] >> (s_n % 8)) == 0, "C11 parse: accepted encoding has no padding bit set");
             __CPROVER_assert(32 * (1 + s_pop) <= sizeof(proof.data) && s_nb <= sizeof(proof.used_inputs), "C11 parse: accepted sizes fit the proof object");
         }
